@@ -24,6 +24,26 @@ from framework import Finding
 PID = "C08"
 MODULE = "MysticVerif.Props.C08"
 THEOREMS = [
+    "MysticVerif.C08.candidates_distinct",
+    "MysticVerif.C08.trial_component",
+    "MysticVerif.C08.crossover_exponential",
+    "MysticVerif.C08.crossover_binomial",
+    "MysticVerif.C08.coded_crossover",
+    "MysticVerif.C08.call_frame",
+    "MysticVerif.C08.named_bin_runs_exponential_witness",
+    "MysticVerif.C08.replaced_only_if_strictly_lower",
+    "MysticVerif.C08.generation_replaced_only_if_strictly_lower",
+    "MysticVerif.C08.nm_update_eq_ref_iter",
+    "MysticVerif.C08.nm_init_eq_ref_init",
+    "MysticVerif.C08.nm_start_iff",
+    "MysticVerif.C08.nm_refines_ref",
+    "MysticVerif.C08.nm_stops_before_simplex",
+    "MysticVerif.C08.ref_fval_is_head",
+    "MysticVerif.C08.powell_refines_ref",
+    "MysticVerif.C08.powell_first_iteration_gap",
+    "MysticVerif.C08.powell_bigind_valid",
+    "MysticVerif.C08.powell_delta_bigind_spec",
+    "MysticVerif.C08.powell_direction_replacement",
 ]
 
 STRATS = ["Best1Exp", "Best1Bin", "Rand1Exp", "Rand1Bin", "RandToBest1Exp", "RandToBest1Bin",
@@ -50,8 +70,9 @@ class DrawPatch:
     the module `random` at call time by mystic.strategy) are replaced by generators driven by the case stream that
     record what they returned.  `sample` records the POSITIONS it picked in the population it was handed."""
 
-    def __init__(self, rng, cr, boundary=True):
+    def __init__(self, rng, cr, boundary=True, script=None):
         self.rng = rng; self.cr = float(cr); self.boundary = boundary
+        self.script = script          # fixed draws {"positions": [..], "n0": k, "us": [..]} (witnesses / replays)
         self.positions = None; self.pool = None; self.n0 = None; self.nrange = None; self.us = []
         self.extra = []
 
@@ -61,7 +82,10 @@ class DrawPatch:
 
         def sample(population, k, **kw):
             population = list(population)
-            pos = me.rng.sample(range(len(population)), k)       # raises ValueError like the real one
+            if me.script is not None:
+                pos = list(me.script["positions"])[:k]
+            else:
+                pos = me.rng.sample(range(len(population)), k)       # raises ValueError like the real one
             if me.positions is None:
                 me.positions = pos; me.pool = population
             else:
@@ -69,7 +93,9 @@ class DrawPatch:
             return [population[p] for p in pos]
 
         def randrange(a, *rest):
-            if rest:
+            if me.script is not None:
+                v = me.script["n0"]
+            elif rest:
                 v = me.rng.randrange(a, *rest)
             else:
                 k = me.rng.random()
@@ -81,6 +107,10 @@ class DrawPatch:
             return v
 
         def rand():
+            if me.script is not None:
+                v = me.script["us"][len(me.us)] if len(me.us) < len(me.script["us"]) else 0.999
+                me.us.append(v)
+                return v
             k = me.rng.random()
             cr = me.cr
             v = me.rng.random()
@@ -110,13 +140,13 @@ def trial_rows(inst):
     return [vec(ts)]
 
 
-def record_call(fn, name, inst, cand, rng, boundary=True):
+def record_call(fn, name, inst, cand, rng, boundary=True, script=None):
     """run the REAL strategy `fn(inst, cand)` under DrawPatch; returns the observation dict"""
     obs = {"name": name, "map": bool(inst._map_solver), "cand": int(cand), "np": int(inst.nPop), "nd": int(inst.nDim),
            "F": float(inst.scale), "CR": float(inst.probability),
            "pop": [vec(p) for p in inst.population], "best": vec(inst.bestSolution),
            "trial_before": trial_rows(inst)}
-    with DrawPatch(rng, inst.probability, boundary) as dp:
+    with DrawPatch(rng, inst.probability, boundary, script) as dp:
         fn(inst, cand)
     obs["trial_after"] = trial_rows(inst)
     obs["positions"] = dp.positions; obs["pool"] = dp.pool; obs["n0"] = dp.n0; obs["us"] = list(dp.us)
@@ -256,7 +286,7 @@ def make_inst(rng, two, name, tier):
     s.population = [np.array(p) if as_array else list(p) for p in pop]
     s.bestSolution = np.array(pop[rng.randrange(npop)]) if rng.random() < 0.6 else np.array([num() for _ in range(dim)])
     s.scale = rng.choice([0.8, 0.5, 1.0, 0.0, 2.0, rng.uniform(0, 2)])
-    s.probability = rng.choice([0.9, 0.5, 0.1, 1.0, 0.0, rng.random()])
+    s.probability = rng.choice([0.9, 0.9, 0.7, 0.5, 0.5, 0.1, 1.0, 1.0, 0.0, rng.random()])
     junk = lambda: [num() for _ in range(dim)]
     if two:
         s.trialSolution = [junk() for _ in range(npop)]
@@ -295,7 +325,7 @@ def derun_case(rng, tier, hist):
     dim = rng.randint(1, 4 if tier == "quick" else 7)
     npop = max(NCAND[kind_of(name)] + 1 + rng.choice([0, 1, 2, 4]), dim, 4)
     e = gen_de_cost(rng, dim)
-    F = rng.choice([0.8, 0.5, 1.0, rng.uniform(0.1, 1.5)]); CR = rng.choice([0.9, 0.5, 0.1, 1.0, 0.0, rng.random()])
+    F = rng.choice([0.8, 0.5, 1.0, rng.uniform(0.1, 1.5)]); CR = rng.choice([0.9, 0.9, 0.7, 0.5, 0.5, 0.1, 1.0, 0.0, rng.random()])
     ngen = rng.randint(2, 6 if tier == "quick" else 25)
     s = (DifferentialEvolutionSolver2 if two else DifferentialEvolutionSolver)(dim, npop)
     flavour = rng.choice(["int", "dyadic", "float"])
@@ -405,6 +435,319 @@ def derun_model_compare(run, reply):
     return []
 
 
+# ====================================================================================== Nelder-Mead
+ZDELT_REF = 0.00025
+RADIUS = 0.05
+ZDELT_MYSTIC = (RADIUS ** 2) * 0.1          # scipy_optimize.py l.137: one ulp above the reference's 0.00025
+
+
+def gen_nm_case(rng, tier):
+    dim = rng.randint(1, 4 if tier == "quick" else 8)
+    k = rng.random()
+    if k < 0.12:
+        e = ("sum",) + tuple(("abs", ("x", i)) for i in range(dim))            # symmetric: exact ties
+    elif k < 0.2:
+        e = ("sum",) + tuple(("sq", ("rint", ("x", i))) for i in range(dim))   # plateaus
+    else:
+        e = solvergen.gen_cost(rng, dim, allow_vector=False)[1]
+
+    def coord():
+        q = rng.random()
+        if q < 0.07:
+            return 0.0
+        if q < 0.4:
+            return dyadic(rng, -4, 4, 4) or 1.0
+        if q < 0.5:
+            return float(rng.randint(-3, 3)) or -1.0
+        return rng.uniform(-5, 5)
+    x0 = [coord() for _ in range(dim)]
+    xtol = rng.choice([1e-4, 1e-4, 1e-2, 1e-6, 1e-8, 0.5]); ftol = rng.choice([1e-4, 1e-4, 1e-2, 1e-6, 1e-10, 0.5])
+    maxiter = rng.choice([None] * 12 + [0, 1, 2, 3, 5, 10, 40]); maxfun = rng.choice([None] * 12 + [0, 1, 2, 3, dim + 1, dim + 2, 10, 50])
+    return {"dim": dim, "expr": e, "x0": x0, "xtol": xtol, "ftol": ftol, "maxiter": maxiter, "maxfun": maxfun}
+
+
+def run_fmin(which, c):
+    from mystic.solvers import fmin
+    from mystic import _scipy060optimize as REF
+    calls = []
+    e = c["expr"]
+
+    def cost(x):
+        xv = vec(x); y = dsl.ev(e, xv); calls.append((xv, y)); return y
+    fn = fmin if which == "mystic" else REF.fmin
+    x, f, it, fc, wf = fn(cost, list(c["x0"]), xtol=c["xtol"], ftol=c["ftol"], maxiter=c["maxiter"], maxfun=c["maxfun"],
+                          full_output=1, disp=0)
+    return {"x": vec(x), "f": float(f), "iter": int(it), "fcalls": int(fc), "warn": int(wf), "ncalls": len(calls),
+            "nan": any(y != y or abs(y) == math.inf for _, y in calls)}
+
+
+def fmin_request(which, c, zdelt):
+    N = c["dim"]
+    mi = c["maxiter"] if c["maxiter"] is not None else N * 200
+    mf = c["maxfun"] if c["maxfun"] is not None else N * 200
+    return "C08 fmin (which %s) (cost (scalar %s)) (x0 %s) (xtol %s) (ftol %s) (maxiter %d) (maxfun %d) (zdelt %s) (radius %s)" % (
+        which, dsl.expr_sexp(c["expr"]), fl(c["x0"]), f2b(c["xtol"]), f2b(c["ftol"]), mi, mf, f2b(zdelt), f2b(RADIUS))
+
+
+def feq(a, b):
+    return (a == b) or (a != a and b != b)
+
+
+def veq(a, b):
+    return len(a) == len(b) and all(feq(p, q) for p, q in zip(a, b))
+
+
+def close(a, b, rel=1e-6, ab=1e-9):
+    return feq(a, b) or abs(a - b) <= ab + rel * max(abs(a), abs(b))
+
+
+def nm_monitor(c, a, b, hist):
+    """real fmin (a) vs the reference (b): the property's statement"""
+    out = []
+    started = (c["maxfun"] is None or c["maxfun"] > 1) and (c["maxiter"] is None or c["maxiter"] > 0)
+    zero = any(v == 0.0 for v in c["x0"])
+    for nm, r in (("fmin", a), ("reference", b)):
+        if r["fcalls"] != r["ncalls"]:
+            out.append(("fmin/funcalls-miscounted/%s" % nm, "%s reports %d function calls, %d were made" % (nm, r["fcalls"], r["ncalls"])))
+    if a["nan"] or b["nan"]:
+        hadd(hist, "nm:nan-skipped"); return out, False
+    if not feq(a["f"], dsl.ev(c["expr"], a["x"]) + 0.0):
+        out.append(("fmin/fopt-not-cost-at-xopt", "fmin returned fopt=%r but cost(xopt)=%r" % (a["f"], dsl.ev(c["expr"], a["x"]))))
+    if not started:
+        hadd(hist, "nm:limit-edge(maxfun<=1|maxiter=0)")
+        if (a["iter"], a["fcalls"]) != (0, 1) or not veq(a["x"], c["x0"]):
+            out.append(("fmin/limit-edge", "with maxiter=%r maxfun=%r fmin made %d iterations / %d calls, x=%r" % (c["maxiter"], c["maxfun"], a["iter"], a["fcalls"], a["x"])))
+        return out, False
+    counts_a = (a["iter"], a["fcalls"], a["warn"]); counts_b = (b["iter"], b["fcalls"], b["warn"])
+    if not zero:
+        hadd(hist, "nm:exact-class")
+        if not (veq(a["x"], b["x"]) and feq(a["f"], b["f"]) and counts_a == counts_b):
+            out.append(("fmin/differs-from-reference", "fmin -> x=%r f=%r (iter, funcalls, warnflag)=%r ; reference -> x=%r f=%r %r"
+                        % (a["x"], a["f"], counts_a, b["x"], b["f"], counts_b)))
+    else:
+        hadd(hist, "nm:zero-coordinate-class(zdelt differs by one ulp)")
+        if counts_a != counts_b:
+            hadd(hist, "nm:zero-coordinate:counts-differ")
+        elif veq(a["x"], b["x"]):
+            hadd(hist, "nm:zero-coordinate:identical")
+        elif not (all(close(p, q) for p, q in zip(a["x"], b["x"])) and close(a["f"], b["f"])):
+            # the one-ulp difference of the initial simplex is amplified by long / ill-conditioned runs: not a defect; the exact
+            # statement for this class is the replay `mystic-vs-reference-transcription` (reference algorithm with mystic's constant)
+            hadd(hist, "nm:zero-coordinate:differs-beyond-1e-6")
+        else:
+            hadd(hist, "nm:zero-coordinate:equal-to-rounding")
+    hadd(hist, "nm:stop:%s" % {0: "converged", 1: "maxfun", 2: "maxiter"}[b["warn"]])
+    return out, b["iter"] >= 3
+
+
+def fmin_compare(tag, real, reply, hist):
+    """Lean transcription vs a real run (bit-exact on x; energies by value)"""
+    r = parse_reply(reply)
+    if r[0] != "ok":
+        return [("fmin/%s/model-%s" % (tag, r[0]), "model replied %r" % (reply[:200],))]
+    d = r[1]
+    if d["tie"] == "true":
+        hadd(hist, "nm:model:%s:tie-skipped" % tag)      # argsort's order among equal energies is unspecified
+        return []
+    hadd(hist, "nm:model:%s" % tag)
+    mx = [b2f(t) for t in d["x"]]; mf = b2f(d["fval"]); mm = b2f(d["fmin"])
+    got = (int(d["iter"]), int(d["fcalls"]), int(d["warn"])); want = (real["iter"], real["fcalls"], real["warn"])
+    diffs = []
+    if not same_vec(mx, real["x"]):
+        diffs.append("xopt model=%r impl=%r" % (mx, real["x"]))
+    if not (feq(mf, real["f"]) and feq(mm, real["f"])):
+        diffs.append("fopt model=%r (min %r) impl=%r" % (mf, mm, real["f"]))
+    if got != want:
+        diffs.append("(iterations, funcalls, warnflag) model=%r impl=%r" % (got, want))
+    if diffs:
+        return [("fmin/%s/diverges" % tag, "; ".join(diffs))]
+    return []
+
+
+def nm_steps_case(rng, tier):
+    """the real NelderMeadSimplexSolver stepped explicitly; replayed per step by the shared `nm` model command"""
+    import trace, solvermodel
+    c = gen_nm_case(rng, tier)
+    n = rng.randint(3, 14 if tier == "quick" else 60)
+    spec = {"solver": "NM", "dim": c["dim"], "x0": c["x0"], "cost": ("scalar", c["expr"]), "termination": ("never",),
+            "limits": (10 ** 6, 10 ** 7), "ops": [("step",)] * n, "flavour": "steps"}
+    rec, s, prob = trace.run_trace(spec, rng.randrange(2 ** 31))
+    line, cmp = solvermodel.nm_request(spec, rec)
+    return spec, line, cmp
+
+
+# ====================================================================================== Powell
+def gen_powell_case(rng, tier):
+    dim = rng.randint(1, 4 if tier == "quick" else 6)
+    k = rng.random()
+    at_opt = False
+    if k < 0.10:        # the guess is already the minimiser: the reference converges in its FIRST iteration (F15 class)
+        cs = [dyadic(rng, -3, 3, 4) for _ in range(dim)]
+        e = ("sum",) + tuple((rng.choice(["sq", "abs"]), ("-", ("x", i), ("c", cs[i]))) for i in range(dim))
+        x0 = list(cs); at_opt = True
+    elif k < 0.14:
+        e = ("c", dyadic(rng, -2, 2, 2)); x0 = [gfloat(rng, 4.0) for _ in range(dim)]     # constant objective
+    elif k < 0.24:      # plateaus: moves without gain, exact ties between decreases, t == 0
+        cs = [dyadic(rng, -3, 3, 2) for _ in range(dim)]
+        sc = rng.choice([1.0, 2.0, 4.0])
+        e = ("sum",) + tuple(("sq", ("rint", ("*", ("c", sc), ("-", ("x", i), ("c", cs[i]))))) for i in range(dim))
+        x0 = [dyadic(rng, -4, 4, 4) for _ in range(dim)]
+    elif k < 0.32:      # exchange-symmetric: equal decreases along different directions
+        cval = dyadic(rng, -2, 2, 2); a0 = dyadic(rng, -4, 4, 4)
+        kind = rng.choice(["sq", "abs"])
+        e = ("sum",) + tuple((kind, ("-", ("x", i), ("c", cval))) for i in range(dim))
+        if dim >= 2 and rng.random() < 0.5:
+            e = e + (("*", ("c", 0.25), ("sq", ("-", ("x", 0), ("x", 1)))),)
+        x0 = [a0 for _ in range(dim)]
+    else:
+        e = solvergen.gen_cost(rng, dim, allow_vector=False)[1]
+        x0 = [rng.choice([0.0, 1.0, -2.5, rng.uniform(-4, 4), dyadic(rng, -4, 4, 4)]) for _ in range(dim)]
+    xtol = rng.choice([1e-4, 1e-4, 1e-2, 1e-6]); ftol = rng.choice([1e-4, 1e-4, 1e-2, 1e-6, 1e-10])
+    maxiter = rng.choice([None] * 10 + [0, 1, 2, 3, 5]); maxfun = rng.choice([None] * 10 + [0, 1, 5, 20, 60, 100])
+    direc = None
+    if rng.random() < 0.25:
+        direc = [[(1.0 if i == j else 0.0) * rng.choice([1.0, 0.5, -2.0]) + (rng.choice([0.0, 0.0, 0.25, -0.5]) if i != j else 0.0)
+                  for j in range(dim)] for i in range(dim)]
+    return {"dim": dim, "expr": e, "x0": x0, "xtol": xtol, "ftol": ftol, "maxiter": maxiter, "maxfun": maxfun, "direc": direc,
+            "at_opt": at_opt}
+
+
+def run_powell(which, c):
+    import mystic.scipy_optimize as SO
+    from mystic import _scipy060optimize as REF
+    mod = SO if which == "mystic" else REF
+    calls = []; outside = []; ls_log = []; cbs = []
+    state = {"in_ls": False}
+    e = c["expr"]
+
+    def cost(x):
+        xv = vec(x); y = dsl.ev(e, xv); calls.append((xv, y))
+        if not state["in_ls"]:
+            outside.append((xv, y))
+        return y
+    orig = mod._linesearch_powell
+
+    def ls(func, p, xi, tol=1e-3, maxiter=500):
+        p0 = vec(p); xi0 = vec(xi); n0 = len(calls)
+        state["in_ls"] = True
+        try:
+            fret, xn, xin = orig(func, p, xi, tol=tol, maxiter=maxiter) if which == "mystic" else orig(func, p, xi, tol=tol)
+        finally:
+            state["in_ls"] = False
+        ls_log.append({"p": p0, "xi": xi0, "fret": float(fret), "x": vec(xn), "xin": vec(xin), "n": len(calls) - n0, "tol": float(tol)})
+        return fret, xn, xin
+    mod._linesearch_powell = ls
+    try:
+        kw = dict(xtol=c["xtol"], ftol=c["ftol"], maxiter=c["maxiter"], maxfun=c["maxfun"], full_output=1, disp=0,
+                  callback=lambda x: cbs.append(vec(x)), direc=[list(r) for r in c["direc"]] if c["direc"] is not None else None)
+        if which == "mystic":
+            x, f, it, fc, wf, direc = SO.fmin_powell(cost, list(c["x0"]), **kw)
+        else:
+            x, f, direc, it, fc, wf = REF.fmin_powell(cost, list(c["x0"]), **kw)
+    finally:
+        mod._linesearch_powell = orig
+    return {"x": vec(x), "f": float(f), "iter": int(it), "fcalls": int(fc), "warn": int(wf), "direc": [vec(r) for r in np.atleast_2d(direc)],
+            "ncalls": len(calls), "ls": ls_log, "cbs": cbs, "outside": outside,
+            "nan": any(y != y or abs(y) == math.inf for _, y in calls)}
+
+
+def ls_key(r):
+    return (tuple(f2b(v) for v in r["p"]), tuple(f2b(v) for v in r["xi"]))
+
+
+def ls_same(r, q):
+    return ls_key(r) == ls_key(q) and same_float(r["fret"], q["fret"]) and same_vec(r["x"], q["x"]) and same_vec(r["xin"], q["xin"]) and r["n"] == q["n"]
+
+
+def powell_monitor(c, a, b, hist):
+    """real fmin_powell (a) vs the reference (b), both with the same Brent: step for step"""
+    out = []
+    for nm, r in (("fmin_powell", a), ("reference", b)):
+        if r["fcalls"] != r["ncalls"]:
+            out.append(("fmin_powell/funcalls-miscounted/%s" % nm, "%s reports %d function calls, %d were made" % (nm, r["fcalls"], r["ncalls"])))
+    if a["nan"] or b["nan"]:
+        hadd(hist, "powell:nan-skipped"); return out, False
+    started = (c["maxfun"] is None or c["maxfun"] > 1) and (c["maxiter"] is None or c["maxiter"] > 0)
+    if not started:
+        hadd(hist, "powell:limit-edge(maxfun<=1|maxiter=0)")
+        if a["ls"]:
+            out.append(("fmin_powell/limit-edge", "with maxiter=%r maxfun=%r fmin_powell still ran %d line searches" % (c["maxiter"], c["maxfun"], len(a["ls"]))))
+        return out, False
+    N = c["dim"]
+    res_a = (a["iter"], a["fcalls"], a["warn"]); res_b = (b["iter"], b["fcalls"], b["warn"])
+    same = (veq(a["x"], b["x"]) and feq(a["f"], b["f"]) and res_a == res_b and len(a["direc"]) == len(b["direc"])
+            and all(veq(p, q) for p, q in zip(a["direc"], b["direc"])))
+    nls = min(len(a["ls"]), len(b["ls"]))
+    prefix_ok = all(ls_same(a["ls"][i], b["ls"][i]) for i in range(nls)) and len(b["ls"]) <= len(a["ls"])
+    cb_ok = len(a["cbs"]) >= 1 + len(b["cbs"]) and all(veq(p, q) for p, q in zip(a["cbs"][1:], b["cbs"]))
+    first_iter_conv = (b["iter"] == 1 and b["warn"] == 0)
+    if first_iter_conv:
+        hadd(hist, "powell:reference-converged-in-first-iteration")
+    replaced = len(b["ls"]) - N * b["iter"]
+    hadd(hist, "powell:direction-replacements", max(replaced, 0))
+    hadd(hist, "powell:extrapolations", max(len(b["outside"]) - 1, 0))
+    hadd(hist, "powell:stop:%s" % {0: "converged", 1: "maxfun", 2: "maxiter"}[b["warn"]])
+    if not prefix_ok or not cb_ok:
+        i = next((i for i in range(nls) if not ls_same(a["ls"][i], b["ls"][i])), nls)
+        out.append(("fmin_powell/steps-diverge", "line search %d: fmin_powell %r ; reference %r (callbacks agree: %r)"
+                    % (i, a["ls"][i] if i < len(a["ls"]) else None, b["ls"][i] if i < len(b["ls"]) else None, cb_ok)))
+    elif not same:
+        if first_iter_conv:
+            out.append(("fmin_powell/stops-later-than-reference/reference-converged-in-first-iteration",
+                        "x0=%r ftol=%r: the reference stops after iteration 1 (fx=%r, fval=%r, %d calls); fmin_powell continues to iteration %d (%d calls), fval=%r"
+                        % (c["x0"], c["ftol"], b["ls"] and b["outside"][0][1], b["f"], b["fcalls"], a["iter"], a["fcalls"], a["f"])))
+        else:
+            out.append(("fmin_powell/differs-from-reference", "fmin_powell -> x=%r f=%r (iter, funcalls, warnflag)=%r direc=%r ; reference -> x=%r f=%r %r direc=%r"
+                        % (a["x"], a["f"], res_a, a["direc"], b["x"], b["f"], res_b, b["direc"])))
+    else:
+        hadd(hist, "powell:identical")
+    return out, (b["iter"] >= 2)
+
+
+def powell_request(which, c, r):
+    N = c["dim"]
+    mi = c["maxiter"] if c["maxiter"] is not None else N * 1000
+    mf = c["maxfun"] if c["maxfun"] is not None else N * 1000
+    direc = c["direc"] if c["direc"] is not None else [[1.0 if i == j else 0.0 for j in range(N)] for i in range(N)]
+    seen = set(); rows = []
+    for q in r["ls"]:
+        k = ls_key(q)
+        if k in seen:
+            continue
+        seen.add(k)
+        rows.append("(%s %s %s %s %s %d)" % (fl(q["p"]), fl(q["xi"]), f2b(q["fret"]), fl(q["x"]), fl(q["xin"]), q["n"]))
+    fx = " ".join("(%s %s)" % (fl(x), f2b(y)) for x, y in r["outside"])
+    return "C08 powell (which %s) (x0 %s) (direc %s) (ftol %s) (maxiter %d) (maxfun %d) (fuel %d) (ls (%s)) (fx (%s))" % (
+        which, fl(c["x0"]), fll(direc), f2b(c["ftol"]), mi, mf, r["iter"] + 3, " ".join(rows), fx)
+
+
+def powell_compare(tag, real, reply, hist):
+    r = parse_reply(reply)
+    if r[0] != "ok":
+        return [("fmin_powell/%s/model-%s" % (tag, r[0]), "model replied %r" % (reply[:200],))]
+    d = r[1]
+    hadd(hist, "powell:model:%s" % tag)
+    diffs = []
+    mreq = [([b2f(t) for t in q[0]], [b2f(t) for t in q[1]]) for q in d["reqs"]]
+    ireq = [(q["p"], q["xi"]) for q in real["ls"]]
+    if len(mreq) != len(ireq) or not all(same_vec(p[0], q[0]) and same_vec(p[1], q[1]) for p, q in zip(mreq, ireq)):
+        i = next((i for i in range(min(len(mreq), len(ireq))) if not (same_vec(mreq[i][0], ireq[i][0]) and same_vec(mreq[i][1], ireq[i][1]))), min(len(mreq), len(ireq)))
+        diffs.append("line-search request %d: model %r impl %r (model made %d, impl %d)" % (i, mreq[i] if i < len(mreq) else None, ireq[i] if i < len(ireq) else None, len(mreq), len(ireq)))
+    if not same_vec([b2f(t) for t in d["x"]], real["x"]):
+        diffs.append("xopt model=%r impl=%r" % ([b2f(t) for t in d["x"]], real["x"]))
+    if not feq(b2f(d["fval"]), real["f"]):
+        diffs.append("fopt model=%r impl=%r" % (b2f(d["fval"]), real["f"]))
+    got = (int(d["iter"]), int(d["fcalls"]), int(d["warn"])); want = (real["iter"], real["fcalls"], real["warn"])
+    if got != want:
+        diffs.append("(iterations, funcalls, warnflag) model=%r impl=%r" % (got, want))
+    md = [[b2f(t) for t in row] for row in d["direc"]]
+    if len(md) != len(real["direc"]) or not all(same_vec(p, q) for p, q in zip(md, real["direc"])):
+        diffs.append("direction set model=%r impl=%r" % (md, real["direc"]))
+    if diffs:
+        return [("fmin_powell/%s/diverges" % tag, "; ".join(diffs)[:1500])]
+    return []
+
+
 # ====================================================================================== shard
 def gen_case(stream, seed, shard, k, tier, hist):
     rng = case_rng(PID + "/" + stream, seed, shard, k)
@@ -474,10 +817,93 @@ def run_shard(pid, seed, shard, ncases, tier, extra):
         lines.append(derun_model_request(run)); handlers.append(("derun", run, case))
         if len(samples) < 2:
             samples.append({"spec": run["spec"], "final": run["gens"][-1]["after"], "first_call": run["calls"][0] if run["calls"] else None})
+    # ---------------- Nelder-Mead: fmin vs reference vs Lean
+    for k in range(ncases * 3):
+        if only and only != ("nm", k):
+            continue
+        rng = case_rng(PID + "/nm", seed, shard, k)
+        c = gen_nm_case(rng, tier)
+        case = dict(ident("nm", k)); case.update({"x0": c["x0"], "cost": dsl.expr_sexp(c["expr"]), "xtol": c["xtol"], "ftol": c["ftol"],
+                                                  "maxiter": c["maxiter"], "maxfun": c["maxfun"]})
+        try:
+            a = run_fmin("mystic", c); b = run_fmin("ref", c)
+        except Exception as exc:
+            findings.append(Finding("monitor", "fmin/raises/%s" % type(exc).__name__, "fmin raised %r" % (exc,), case))
+            continue
+        evals += 1
+        case["fmin"] = a; case["reference"] = b
+        res, nt = nm_monitor(c, a, b, hist)
+        for key, what in res:
+            findings.append(Finding("monitor", key, what, case))
+        if nt:
+            nontrivial += 1
+        if a["nan"] or b["nan"]:
+            continue
+        lines.append(fmin_request("ref", c, ZDELT_REF)); handlers.append(("fmin", ("ref-vs-transcription", b), case))
+        lines.append(fmin_request("mystic", c, ZDELT_REF)); handlers.append(("fmin", ("mystic-vs-model", a), case))
+        started = (c["maxfun"] is None or c["maxfun"] > 1) and (c["maxiter"] is None or c["maxiter"] > 0)
+        if started:
+            # the reference algorithm run with mystic's initial-simplex constant must reproduce the real fmin exactly
+            lines.append(fmin_request("ref", c, ZDELT_MYSTIC)); handlers.append(("fmin", ("mystic-vs-reference-transcription", a), case))
+        if len(samples) < 3 and nt:
+            samples.append(case)
+    # ---------------- Nelder-Mead: the real solver stepped, per-step replay (branch coverage)
+    for k in range(max(1, ncases // 2)):
+        if only and only != ("nmsteps", k):
+            continue
+        rng = case_rng(PID + "/nmsteps", seed, shard, k)
+        try:
+            spec, line, cmp = nm_steps_case(rng, tier)
+        except Exception as exc:
+            findings.append(Finding("monitor", "NM/raises/%s" % type(exc).__name__, "NelderMeadSimplexSolver raised %r" % (exc,), ident("nmsteps", k)))
+            continue
+        evals += 1
+        if line is not None:
+            case = dict(ident("nmsteps", k)); case["spec"] = spec
+            lines.append("C08" + line[3:]); handlers.append(("nmsteps", cmp, case))
+    # ---------------- Powell: fmin_powell vs reference vs Lean bookkeeping model
+    for k in range(ncases * 3):
+        if only and only != ("powell", k):
+            continue
+        rng = case_rng(PID + "/powell", seed, shard, k)
+        c = gen_powell_case(rng, tier)
+        case = dict(ident("powell", k)); case.update({"x0": c["x0"], "cost": dsl.expr_sexp(c["expr"]), "xtol": c["xtol"], "ftol": c["ftol"],
+                                                      "maxiter": c["maxiter"], "maxfun": c["maxfun"], "direc": c["direc"]})
+        try:
+            a = run_powell("mystic", c); b = run_powell("ref", c)
+        except Exception as exc:
+            findings.append(Finding("monitor", "fmin_powell/raises/%s" % type(exc).__name__, "fmin_powell raised %r" % (exc,), case))
+            continue
+        evals += 1
+        case["fmin_powell"] = {k2: a[k2] for k2 in ("x", "f", "iter", "fcalls", "warn", "direc")}
+        case["reference"] = {k2: b[k2] for k2 in ("x", "f", "iter", "fcalls", "warn", "direc")}
+        res, nt = powell_monitor(c, a, b, hist)
+        for key, what in res:
+            findings.append(Finding("monitor", key, what, case))
+        if nt:
+            nontrivial += 1
+        if a["nan"] or b["nan"]:
+            continue
+        lines.append(powell_request("ref", c, b)); handlers.append(("powell", ("ref-vs-transcription", b), case))
+        started = (c["maxfun"] is None or c["maxfun"] > 1) and (c["maxiter"] is None or c["maxiter"] > 0)
+        if started:
+            lines.append(powell_request("mystic", c, a)); handlers.append(("powell", ("mystic-vs-model", a), case))
+        if len(samples) < 4 and nt and len(b["ls"]) > c["dim"] * b["iter"]:
+            samples.append(case)
     replies = leandrv.run_driver(lines) if lines else []
     for (kind, obj, case), line, rep in zip(handlers, lines, replies):
         if kind == "strat":
             res = strat_compare(obj, rep)
+        elif kind == "fmin":
+            res = fmin_compare(obj[0], obj[1], rep, hist)
+        elif kind == "powell":
+            res = powell_compare(obj[0], obj[1], rep, hist)
+        elif kind == "nmsteps":
+            import solvermodel
+            res = obj(rep)
+            hadd(hist, "model:nm-steps")
+            for bname in solvermodel.nm_branches(rep):
+                hadd(hist, "nm-branch:%s" % bname)
         else:
             res = derun_model_compare(obj, rep)
             hadd(hist, "model:de")
@@ -488,19 +914,70 @@ def run_shard(pid, seed, shard, ncases, tier, extra):
             "samples": samples, "hist": hist}
 
 
+def witnesses():
+    """fixed cases run first on every invocation: the recorded known findings, re-confirmed on the implementation"""
+    common.import_mystic()
+    import mystic.strategy as S
+    from mystic.solvers import DifferentialEvolutionSolver
+    out = []; hist = {}
+    lines = []; obs = []
+    for name in ("Rand1Bin", "RandToBest1Bin", "Best2Bin", "Rand2Bin"):
+        s = DifferentialEvolutionSolver(2, 6)
+        s.population = [[0.0, 0.0], [1.0, 10.0], [3.0, 40.0], [7.0, 90.0], [15.0, 200.0], [31.0, 500.0]]
+        s.bestSolution = np.array([100.0, 1000.0]); s.scale = 2.0; s.probability = 0.5
+        s.trialSolution = [0.0, 0.0]
+        # the instance of Props/C08 `named_bin_runs_exponential_witness`: first draw >= CR
+        o = record_call(getattr(S, name), name, s, 0, _random.Random(0), script={"positions": [0, 1, 2, 3, 4], "n0": 1, "us": [0.75, 0.25, 0.25]})
+        case = {"stream": "witness", "call": o}
+        for key, what in strat_monitor(o, hist):
+            out.append(Finding("monitor", key, what, case))
+        lines.append(strat_request(o)); obs.append((o, case))
+    for (o, case), rep in zip(obs, leandrv.run_driver(lines)):
+        for key, what in strat_compare(o, rep):
+            out.append(Finding("correspondence", key, what, case))
+    c = {"dim": 2, "expr": ("sum", ("*", ("c", 100.0), ("sq", ("-", ("x", 1), ("sq", ("x", 0))))), ("sq", ("-", ("c", 1.0), ("x", 0)))),
+         "x0": [1.0, 1.0], "xtol": 1e-4, "ftol": 1e-6, "maxiter": None, "maxfun": None, "direc": None}
+    a = run_powell("mystic", c); b = run_powell("ref", c)
+    case = {"stream": "witness", "x0": c["x0"], "cost": dsl.expr_sexp(c["expr"]), "fmin_powell": [a["x"], a["f"], a["iter"], a["fcalls"], a["warn"]],
+            "reference": [b["x"], b["f"], b["iter"], b["fcalls"], b["warn"]]}
+    res, _ = powell_monitor(c, a, b, hist)
+    for key, what in res:
+        out.append(Finding("monitor", key, what, case))
+    return out
+
+
 def main(tier, seed):
     t0 = time.time()
     proof = framework.proof_stage(PID, MODULE, THEOREMS, tier)
-    nshards, per = (16, 8) if tier == "quick" else (64, 40)
+    nshards, per = (16, 90) if tier == "quick" else (64, 300)
     run = framework.run_shards("c08", "run_shard", PID, seed, nshards, per, tier)
+    run["findings"] = witnesses() + run["findings"]
 
     def search_more():
-        r = framework.run_shards("c08", "run_shard", PID, seed + 15485863, 32, 20, tier)
+        r = framework.run_shards("c08", "run_shard", PID, seed + 15485863, 32, 60, tier)
         return r["findings"]
-    rule = ("cases per shard unit: 6 isolated strategy calls + 1 real DE run (+ its strategy calls). non-trivial = a strategy call that "
-            "consumed at least 2 crossover draws / a DE run with more replacements than members and at least one rejection")
-    tb = ["Lean 4.33 kernel; axioms per theorem under coverage.theorems"]
-    assumptions = ["IEEE binary64 + - * / and comparisons agree between Lean Float and numpy/CPython"]
+    rule = ("per shard unit: 6 isolated calls of a mystic.strategy function on a real solver object (10 strategies x DE1 list / DE2 per-candidate "
+            "trial layout; nDim 1-12, NP down to ncand+1, int/dyadic/float/duplicated populations, F and CR incl. 0 and 1; draws from a recording "
+            "generator with boundary values u == CR, one ulp either side, n = 0, n = nDim-1) + 1 real DE/DE2 run of 2-%d generations "
+            "(plateau / symmetric / smooth costs; every strategy call inside it recorded) + 3 fmin cases (real fmin vs reference fmin vs Lean; dim 1-%d, "
+            "smooth / abs / ill-conditioned / rosenbrock costs, zero coordinates, xtol/ftol 0.5..1e-10, limits incl. 0,1,N+1) + 0.5 stepped "
+            "NelderMeadSimplexSolver runs (per-step replay, branch histogram) + 3 fmin_powell cases (real vs reference with recorded Brent searches vs "
+            "Lean bookkeeping model; dim 1-%d, custom direction sets, guess at the optimum, constant objective). non-trivial = strategy call with >= 2 "
+            "crossover draws / DE run with more replacements than members and a rejection / fmin with >= 3 iterations / fmin_powell with >= 2 iterations"
+            % ((6, 4, 4) if tier == "quick" else (25, 8, 6)))
+    tb = ["Lean 4.33 kernel; axioms per theorem under coverage.theorems (subset of propext, Classical.choice, Quot.sound)",
+          "hand-written models Model/Strategy.lean, Model/RefFmin.lean, Model/Powell.lean (+ shared Model/Solver.lean, Model/NelderMead.lean) tied to /repo by the "
+          "bit-exact replays counted in the histogram (strat:*, model:de, nm:model:*, model:nm-steps, powell:model:*)",
+          "random.sample / randrange / random are replaced by recording generators for the duration of a strategy call (contract of random.sample: "
+          "distinct positions of the pool it is handed); the Brent line search and the initial-simplex / convergence expressions are oracles of the "
+          "theorems (the Float driver implements the latter two; Brent results are recorded tables)",
+          "refFmin / refPowell are transcriptions of mystic/_scipy060optimize.py, tied to that file by the same replays (reference run vs transcription)",
+          "DSL twins harness/dsl.py and Model/Dsl.lean for the cost functions"]
+    assumptions = ["costs never return NaN/inf (such runs are skipped and counted)",
+                   "unconstrained, unbounded, unpenalised problems (the property's hypothesis); limits maxfun > 1 and maxiter > 0 for the equality with the "
+                   "reference (below that mystic stops before building the simplex / before the first sweep: checked against the model, counted as limit-edge)",
+                   "runs in which two vertices carry exactly equal energies are compared real-vs-real only (numpy.argsort's order among ties is unspecified)",
+                   "IEEE binary64 + - * / and comparisons agree between Lean Float and numpy/CPython"]
     return framework.finish(PID, tier, seed, t0, proof, run, rule, tb, assumptions, search_more=search_more)
 
 
@@ -515,8 +992,11 @@ def replay(path):
         return 2
     common.import_mystic()
     leandrv.ensure_driver()
-    res = run_shard(PID, case["seed"], case["shard"], 10 ** 6 if False else max(case["k"] + 1, 1), case.get("tier", "quick"),
-                    {"only": (case["stream"], case["k"])})
+    if case["stream"] == "witness":
+        res = {"findings": witnesses()}
+    else:
+        res = run_shard(PID, case["seed"], case["shard"], max(case["k"] + 1, 1), case.get("tier", "quick"),
+                        {"only": (case["stream"], case["k"])})
     known = {e["class_key"] for e in framework.load_known(PID)}
     bad = [f for f in res["findings"] if f["class_key"] not in known]
     for f in res["findings"]:
